@@ -213,6 +213,28 @@ def run(ctx):
                 if info['converged'] and tr > 10 * 1e-6:
                     viol(f'C04:info:converged:row-scaled:{prec}', f'converged reported with true residual {tr:.2e} > 10 tol (tol = 1e-6)', inp, tr)
                 ctx.count(('row-scaled', n, top, bname, prec), True)
+    # lucky breakdown strictly INSIDE a restart cycle: the residual left by the first cycle is an eigenvector of A (eigenvalue of modulus != 1), so the
+    # second cycle's Krylov space is invariant after one step although its length is two
+    for n in (3, 4) if ctx.quick() else (3, 4, 5, 6):
+        for fam in ('upper-triangular', 'shifted-shift'):
+            if fam == 'upper-triangular':
+                A = [[(qx.rand_int(rng, 1, 1, -3, 3)[0][0] if j > i else (Q(2 + i) if i == j else Q())) for j in range(n)] for i in range(n)]
+                if A[0][1].is_zero(): A[0][1] = Q(0, 1, 1, 0)
+                b = qx.zeros(n, 1); b[1][0] = Q(1); b[0][0] = A[0][1] * Q(Fraction(-1, 2))           # A[0,0] b1 + A[0,1] b2 = 0 with A[0,0] = 2
+            else:
+                lam = Q(3); A = [[(lam if i == j else (Q(1) if j == i + 1 else Q())) for j in range(n)] for i in range(n)]
+                b = qx.zeros(n, 1); b[0][0] = Q(1); b[1][0] = Q(-3)
+            An = qx.to_np(A); bn = qx.to_np(b)
+            for storage in ('dense', 'sparse'):
+                inp = {'class': 'restart residual is an eigenvector (' + fam + ')', 'n': n, 'storage': storage, 'A': [[[str(c) for c in a.t()] for a in r] for r in A], 'b': [[str(c) for c in q[0].t()] for q in b]}
+                try: x, info = solve(An if storage == 'dense' else mk_sparse(utils, A), bn, tol=1e-10)
+                except Exception as e: viol('C04:raises:breakdown-inside-cycle', f'Q-GMRES raised {e!r}', inp); continue
+                if not cm.all_finite(x): viol('C04:nonfinite:breakdown-inside-cycle', 'Q-GMRES returned NaN/inf', inp); continue
+                tr = relres(An, x, bn); hist = [h[2] for h in info['residual_history']]
+                if tr > 1e-8: viol('C04:solve:breakdown-inside-cycle', f'system not solved after at most n cycles when a lucky breakdown falls inside a restart cycle (true residual {tr:.2e}, history {[float("%.3g" % h) for h in hist]})', inp, tr)
+                if any(hist[i + 1] > hist[i] * (1 + 1e-8) + 1e-14 for i in range(len(hist) - 1)): viol('C04:history:monotone:breakdown-inside-cycle', 'residual history increases', inp, hist)
+                if abs(info['residual'] - tr) > 1e-9 * max(1.0, tr) + 1e-13: viol('C04:info:residual', 'info.residual is not ||Ax-b||/||b|| of the returned x', inp, info['residual'], tr)
+                ctx.count(('breakdown-inside', n, fam, storage), True)
     # LU preconditioner under every pivot order: systems A = P^T L U (dyadic, |multipliers| <= 3/4) force each of the n! interchange
     # sequences, the non-involutive ones (3-cycles, 4-cycles) included; the preconditioned run must solve the ORIGINAL system and agree
     # with the unpreconditioned solution
